@@ -427,7 +427,10 @@ def run_history(ctx: Ctx, d: DFA, other: DFA, hist, origin: str, kmax: int):
             ctx.corr_diff("HISTORY answer", dict(describe(d, other, hist[: i + 1]), index=i), a, m["ans"])
         # CacheInv on the real object: every populated level holds the table of that level
         if len(ct) > len(mct) or len(wt) > len(mwt):
-            raise InfraError("cache longer than the tables requested from the model")
+            if not bad:
+                ctx.corr_diff("HISTORY cache longer than any query asked for", dict(describe(d, other, hist[: i + 1]), index=i),
+                              (len(ct), len(wt)), (len(mct), len(mwt)))
+            break
         if any(ct[j] != mct[j] for j in range(len(ct))) and not bad:
             ctx.corr_diff("HISTORY count cache content", dict(describe(d, other, hist[: i + 1]), index=i), ct, mct[: len(ct)])
         if any(wt[j] != mwt[j] for j in range(len(wt))) and not bad:
